@@ -1,8 +1,14 @@
+use std::sync::Arc;
 use unimock::*;
-#[unimock(api=MTMock)]
-trait MT { fn m_nn(&self, a: u8, b: u8) -> u32; }
+use embedded_hal_1::spi::{Operation as SpiOp, SpiDevice};
+use unimock::mock::embedded_hal_1::spi::SpiDeviceMock;
 fn main() {
-    let o = Unimock::new(MTMock::m_nn.next_call(matching!(eq!(&1), eq!(&3))).returns(1u32).n_times(1)).no_verify_in_drop();
-    let r = std::panic::catch_unwind(std::panic::AssertUnwindSafe(|| o.m_nn(1, 0)));
-    println!("{}", r.err().and_then(|p| p.downcast_ref::<String>().cloned()).unwrap_or_default());
+    let mut u = Unimock::new(SpiDeviceMock::transaction.with_types::<u8>().each_call(matching!(_)).answers_arc(Arc::new(move |_, _ops| { println!("tx"); Ok(()) })).at_least_times(0)).no_verify_in_drop();
+    let mut b1 = [0u8; 2];
+    let r = std::panic::catch_unwind(std::panic::AssertUnwindSafe(|| { let _ = SpiDevice::<u8>::transaction(&mut u, &mut [SpiOp::Read(&mut b1)]); }));
+    println!("direct: {:?}", r.is_ok());
+    let r = std::panic::catch_unwind(std::panic::AssertUnwindSafe(|| { let _ = SpiDevice::<u8>::read(&mut u, &mut b1); }));
+    println!("provided read: {:?}", r.is_ok());
+    let r = std::panic::catch_unwind(std::panic::AssertUnwindSafe(|| { let _ = SpiDevice::<u8>::write(&mut u, &[1u8]); }));
+    println!("provided write: {:?}", r.is_ok());
 }
